@@ -17,8 +17,8 @@ Open Scope N_scope.
 
 (* Refinement, all histories: every sequence of writes, overwrites, reads and
    prefix listings on the tree gives exactly the results of the association
-   list (non-strict variant = with the two deviations of the code spelled
-   out), and the regular files of the final tree are that list. A write that
+   list (non-strict variant = with the one deviation of the code, in listings,
+   spelled out), and the regular files of the final tree are that list. A write that
    fails leaves the list unchanged (spec_write) -- and the tree, see
    C18_failed_write_inert. *)
 Theorem C18_refinement : forall ops, forallb op_ok ops = true ->
@@ -29,9 +29,8 @@ Print Assumptions C18_refinement.
 
 (* The same against the STRICT map (absent => not-exist, listing = every
    stored name with the prefix) for every history that contains no deviating
-   operation: no read of an absent name that is an ancestor or a descendant
-   of a stored name, no listing that should show a name below a directory
-   whose name is not valid UTF-8. *)
+   operation: no listing that should show a name below a directory whose
+   name is not valid UTF-8. *)
 Theorem C18_refinement_strict : forall ops, forallb op_ok ops = true ->
   no_deviation [] ops = true ->
   fst (run_fs fs_init ops) = fst (run_spec true [] ops).
@@ -78,24 +77,12 @@ Theorem C18_read_stored : forall m n c, reachable m ->
   (read m (components n) = ROk c <-> sget (components n) (files m) = Some c).
 Proof. exact read_stored. Qed.
 Print Assumptions C18_read_stored.
-(* ... an absent object reports not-exist, outside the colliding class ... *)
+(* ... and every absent object reports not-exist, also when its name is an
+   ancestor or a descendant of a stored name (fix 8c1d2a3) *)
 Theorem C18_read_absent_not_exist : forall m n, reachable m ->
-  sget (components n) (files m) = None -> collides (components n) (files m) = false ->
-  read m (components n) = RNotExist.
+  sget (components n) (files m) = None -> read m (components n) = RNotExist.
 Proof. exact read_absent_not_exist. Qed.
 Print Assumptions C18_read_absent_not_exist.
-(* ... and inside it never does (known finding read-absent-colliding) *)
-Theorem C18_read_absent_colliding : forall m n, reachable m ->
-  sget (components n) (files m) = None -> collides (components n) (files m) = true ->
-  read m (components n) = RIsDir \/ read m (components n) = RNotDir.
-Proof. exact read_absent_colliding. Qed.
-Print Assumptions C18_read_absent_colliding.
-Theorem C18_read_absent_refuted :
-  forallb op_ok ops_read_dir = true /\
-  fst (run_spec true [] ops_read_dir) = [RW true; RR RNotExist] /\
-  fst (run_fs fs_init ops_read_dir) = [RW true; RR RIsDir].
-Proof. exact read_absent_refuted. Qed.
-Print Assumptions C18_read_absent_refuted.
 
 (* listing: what Objects(prefix) returns is the stored names (in walk order:
    component-wise lexicographic, strictly increasing, no duplicates) that lie
@@ -157,6 +144,10 @@ Proof. exact chart_name_good. Qed.
 Print Assumptions C18_service_names_inside_chart.
 
 (* Non-vacuity *)
+Example C18_example_read_colliding :
+  forallb op_ok ops_read_dir = true /\
+  fst (run_fs fs_init ops_read_dir) = [RW true; RR RNotExist; RW true; RR RNotExist].
+Proof. exact read_colliding_example. Qed.
 From Coq Require Import String. Open Scope string_scope. Open Scope N_scope. Open Scope list_scope.
 Example C18_example_escape : resolve [46; 46; 47; 120] = Escapes /\ name_ok [46; 46; 47; 120] = false.
 Proof. exact escape_example. Qed.
